@@ -155,6 +155,40 @@ main_c10(void)
 #endif
 
 #if MODE == 3 || MODE == 4
+/* well-formedness of one ragged column: offsets start at 0, never decrease, end at the data length */
+static int
+ragged_ok(const tsk_size_t *off, tsk_size_t num_rows, tsk_size_t data_len)
+{
+    tsk_size_t j;
+    if (off[0] != 0 || off[num_rows] != data_len) {
+        return 0;
+    }
+    for (j = 0; j < num_rows; j++) {
+        if (off[j] > off[j + 1]) {
+            return 0;
+        }
+    }
+    return 1;
+}
+
+static int
+well_formed(const tsk_table_collection_t *t)
+{
+    return ragged_ok(t->nodes.metadata_offset, t->nodes.num_rows, t->nodes.metadata_length)
+           && ragged_ok(t->edges.metadata_offset, t->edges.num_rows, t->edges.metadata_length)
+           && ragged_ok(t->sites.ancestral_state_offset, t->sites.num_rows, t->sites.ancestral_state_length)
+           && ragged_ok(t->sites.metadata_offset, t->sites.num_rows, t->sites.metadata_length)
+           && ragged_ok(t->mutations.derived_state_offset, t->mutations.num_rows, t->mutations.derived_state_length)
+           && ragged_ok(t->mutations.metadata_offset, t->mutations.num_rows, t->mutations.metadata_length)
+           && ragged_ok(t->migrations.metadata_offset, t->migrations.num_rows, t->migrations.metadata_length)
+           && ragged_ok(t->individuals.location_offset, t->individuals.num_rows, t->individuals.location_length)
+           && ragged_ok(t->individuals.parents_offset, t->individuals.num_rows, t->individuals.parents_length)
+           && ragged_ok(t->individuals.metadata_offset, t->individuals.num_rows, t->individuals.metadata_length)
+           && ragged_ok(t->populations.metadata_offset, t->populations.num_rows, t->populations.metadata_length)
+           && ragged_ok(t->provenances.timestamp_offset, t->provenances.num_rows, t->provenances.timestamp_length)
+           && ragged_ok(t->provenances.record_offset, t->provenances.num_rows, t->provenances.record_length);
+}
+
 /* Byte classes of a kastore file (docs: kastore file format).  Reserved bytes are written as zero and never read
  * back; keys of columns that tskit treats as optional can be renamed into "unknown" keys, which are ignored by design. */
 static const char *optional_keys[] = { "individuals/parents", "individuals/parents_offset", "metadata", "metadata_schema",
@@ -276,7 +310,32 @@ main_c10(void)
 #elif defined(REGION_LASTDESC)
         base = 64 + 64 * (nitems - 1);
 #endif
+#if defined(REGION_OFFSETS)
+        {
+            /* every byte of every ragged-offset array: item by choice, byte by choice */
+            static const size_t tsz[] = { 1, 1, 2, 2, 4, 4, 8, 8, 4, 8 };
+            int item = sym_choice("item", 0, 79), b;
+            int64_t ks, kl, as, al;
+            if (item >= nitems) {
+                sym_assume(0);
+            }
+            ks = peek64(f, 64 + 64 * item + 8);
+            kl = peek64(f, 64 + 64 * item + 16);
+            as = peek64(f, 64 + 64 * item + 24);
+            al = peek64(f, 64 + 64 * item + 32) * (int64_t) tsz[sym_file_peek(f, 64 + 64 * item)];
+            if (kl < 7 || sym_file_peek(f, ks + kl - 7) != '_' || sym_file_peek(f, ks + kl - 6) != 'o'
+                || sym_file_peek(f, ks + kl - 1) != 't') {
+                sym_assume(0);
+            }
+            b = sym_choice("byte", 0, 23);
+            if (b >= al) {
+                sym_assume(0);
+            }
+            pos = (int) (as + b);
+        }
+#else
         pos = base + POS_LO + POS_STEP * sym_choice("k", 0, (POS_HI - POS_LO) / POS_STEP);
+#endif
 #if defined(REGION_KEYS)
         if (pos >= sym_file_peek(f, 64 + 24) + 256 * sym_file_peek(f, 64 + 25)) {
             sym_assume(0); /* beyond the key region */
@@ -318,6 +377,7 @@ main_c10(void)
 #else
     if (ret == 0) {
         sym_reach("accepted");
+        sym_assert(well_formed(&t2), "every ragged column of a loaded object has consistent offsets");
         /* well-formed: round-trips through dump and load */
         g = sym_file_new();
         ret = tsk_table_collection_dumpf(&t2, g, 0);
